@@ -7,6 +7,9 @@ R17.1 the interval predicate assembled by `_matching_conditions` equals half-ope
 R17.2 one WHERE builder; the window flags reach it unchanged.
 R17.3 denormalised extremes (`start`, `stop`) are written whenever `spans` is.
 R17.4 coordinate convention: file number -> stored value offsets (-1, 0).
+
+Added in build round 2 (see DESIGN.md section 3, round-2 table):
+R17.5 the counter of made-up record names is threaded through every call of merged_gff_records: the updated counter it returns is stored where the next ...
 """
 
 from __future__ import annotations
